@@ -17,7 +17,7 @@ which connections may be faulty: a frame that is garbage / invalid UTF-8 / JSON 
 / an unknown method / parameters of the wrong types / a missing parameter / an ill-typed flag at \
 any position of the script, a last frame without terminator followed by EOF, EOF or a transport \
 read error after the last byte (anywhere relative to the other events), transport write failure \
-from the k-th write on; plus one healthy connection that arrives after everything else. Oracle: \
+from the k-th write on (in a second lane also on connections with streaming calls, i.e. at any stream item); plus one healthy connection that arrives after everything else. Oracle: \
 (1) relational - the scenario is run again with the faulty connections absent and every healthy \
 connection must have received byte-identical frames at every observation point; (2) the healthy \
 connections equal the sequential model, faulty ones received at least the replies owed before \
@@ -221,6 +221,21 @@ pub fn run(ctx: &Ctx) -> i32 {
         || scenario_strategy(FEATURES).prop_map(with_late_conn),
         check_scenario,
     );
+    // the same with streaming calls: a faulty subscriber must not disturb the others either
+    let with_streams = Features { subs: true, ..FEATURES };
+    let (s4, v4) = run_shards(
+        ctx,
+        "random-with-streams",
+        shards,
+        cases / 2,
+        || scenario_strategy(with_streams).prop_map(with_late_conn),
+        |sc, stats| {
+            stats.class("lane:with-streams");
+            check_scenario(sc, stats)
+        },
+    );
+    stats.merge(s4);
+    viol.extend(v4);
     let en = enumerated();
     let (s2, v2) = par_enumerate(ctx, "fault-placement", en.len() as u64, |i, stats| {
         let sc = &en[i as usize];
